@@ -111,9 +111,12 @@ pub fn gen_client_history(property: &str, seed: u64) -> ClientHistory {
                 if r.chance(1, 4) {
                     // the subscription ran out while the tower was away: the retrier is the first to learn about it
                     ops.push(COp::Lapse { t });
-                    if r.chance(1, 3) {
+                    match r.below(6) {
                         // ... and the renewal is answered with a receipt made out to another user
-                        ops.push(COp::Script { t, replies: vec![Reply::OtherUserReceipt] });
+                        0 | 1 => ops.push(COp::Script { t, replies: vec![Reply::OtherUserReceipt] }),
+                        // ... or with a validly signed receipt that does not extend what the client holds
+                        2 => ops.push(COp::Script { t, replies: vec![Reply::NotExtending(r.below(2) as u8)] }),
+                        _ => {}
                     }
                 }
                 if r.chance(1, 6) {
